@@ -14,12 +14,16 @@ type Ctx struct {
 	Repo, Verif, Tier string
 	P                 *Program
 
-	edges     map[*ssa.Function][]Edge
-	addrTaken map[string][]*ssa.Function // signature string -> irismod functions whose value is taken
-	concrete  []types.Type               // irismod named types (T and *T) with methods
-	implCache map[string][]*ssa.Function
-	Entries   []Entry
-	doubles   map[*types.TypeName]bool // test-double types compiled into consensus packages
+	edges      map[*ssa.Function][]Edge
+	addrTaken  map[string][]*ssa.Function // signature string -> irismod functions whose value is taken
+	concrete   []types.Type               // irismod named types (T and *T) with methods
+	implCache  map[string][]*ssa.Function
+	Entries    []Entry
+	doubles    map[*types.TypeName]bool // test-double types compiled into consensus packages
+	tpk        map[*ssa.Function]map[string]bool
+	gpn        map[*ssa.Global]string
+	cReach     *Reach
+	entryReach map[string]*Reach
 }
 
 type Edge struct {
